@@ -129,7 +129,9 @@ def c12_tasks(pid, tier, repo, seed, R):
     sweeps += [(f"{c}:round-trip:nothreads", "replay/roundtrip_replay.py", ["search", c, "nothreads"],
                 "the same sweep with the class's thread-safety layer switched off (plain in-place writes)")
                for c in pick if R["classes"][c]["supports_threading"] and (tier == "thorough" or c in ("JSONDict", "BufferedJSONList"))]
-    tasks.append(dict(kind="bounded", repo=repo, seed=seed, props=[pid], sweeps=sweeps, threads=True, label=f"{pid}:bounded:round-trip"))
+    for sw in sweeps:
+        tasks.append(dict(kind="bounded", repo=repo, seed=seed, props=[pid], sweeps=[sw], threads=True,
+                          label=f"{pid}:bounded:round-trip:{sw[0]}"))
     return tasks
 
 
@@ -212,8 +214,9 @@ def buffer_tasks(pid, tier, repo, seed, R, whats=("flush", "init", "save", "load
     sweeps = [(f"{c}:buffered-histories", "replay/buffer_replay.py", ["search", c] + ([] if tier == "thorough" else ["4000"]),
                "all histories of <= 3 buffered operations over 2 objects on 2 files x context nestings x capacities "
                "{large, 1, 0} x one outside write") for c in pick]
-    tasks.append(dict(kind="bounded", repo=repo, seed=seed, props=[pid], sweeps=sweeps, threads=True,
-                      label=f"{pid}:bounded:buffer-histories", timeout=2400))
+    for sw in sweeps:       # one task per class: the sweeps run in parallel
+        tasks.append(dict(kind="bounded", repo=repo, seed=seed, props=[pid], sweeps=[sw], threads=True,
+                          label=f"{pid}:bounded:buffer-histories:{sw[0].split(':')[0]}", timeout=2400))
     return tasks
 
 
